@@ -134,7 +134,8 @@ class TRSpec(object):
         st.assume(z3.Or(same, disc))
         st.assume(z3.And(Val.is_ref(new['_invoke_counter']), TYP(Val.addr(new['_invoke_counter'])) == K('Counter')))
         st.note(new['_invoke_counter'], 'Counter')
-        st.assume(z3.Implies(disc, z3.And(new['_active_recording_parameters'] == NONE, new['_force_sample'] == B(False))))
+        st.assume(z3.Implies(disc, z3.And(new['_active_recording_parameters'] == NONE, new['_force_sample'] == B(False),
+                                          st.g['ddom'][Val.addr(new['_invoke_counter'])] == z3.K(Val, False))))
         ign = Val.bv(st.rd(old['_active_recording_parameters'], 'ignore_enforced_sampling'))
         idle_rec = old['_active_recording'] == NONE
         st.assume(z3.Implies(idle_rec, new['_force_sample'] == old['_force_sample']))
@@ -173,13 +174,16 @@ class TRSpec(object):
         outs = []
         rec = dict(kind=role.kind, name=role.name, pos=list(pos), kw=dict(kw), star=star, dstar=dstar,
                    star_seq=(st.seq(star) if star is not None else None), dstar_c=(st.dcontents(dstar) if dstar is not None else None))
-        s1 = st.copy(); self.rely(s1); v = fresh('ret_' + role.name)
+        s1 = st.copy(); d1 = self.rely(s1); v = fresh('ret_' + role.name)
         if ret is not None:
             s1.assume(ret(s1, v))
-        s1.trace.append(dict(rec, outcome=('ret', v))); outs.append((s1, ('val', v)))
-        s2 = st.copy(); self.rely(s2); e = s2.sym_exc(ordinary=True if ordinary_only else None, label='exc_' + role.name)
-        s2.trace.append(dict(rec, outcome=('raise', e))); outs.append((s2, ('exc', e)))
+        s1.trace.append(dict(rec, outcome=('ret', v), disc=d1, forced=self.forced_term(st, s1))); outs.append((s1, ('val', v)))
+        s2 = st.copy(); d2 = self.rely(s2); e = s2.sym_exc(ordinary=True if ordinary_only else None, label='exc_' + role.name)
+        s2.trace.append(dict(rec, outcome=('raise', e), disc=d2, forced=self.forced_term(st, s2))); outs.append((s2, ('exc', e)))
         return outs
+
+    def forced_term(self, before, after):
+        return z3.And(z3.Not(truthy(before.rd(self.selfv, '_force_sample'))), truthy(after.rd(self.selfv, '_force_sample')))
 
     # ------------------------------------------------------------ executor hooks
     def role_call(self, ex, st, role, f, pos, kw, node, star, dstar):
